@@ -104,11 +104,16 @@ def events(darsia, rng, stacks, degrees, quick):
             n = total if dofs_log == "all" else len(dofs_log)
             params = [rng.randint(10, 40) for _ in range(n)]
             cm = darsia.CombinedModel([build(darsia, m) for m in ms])
-            e = {"tid": f"route:{si}:{qi}", "op": "route", "models": ms, "params": params, "dofs": [] if dofs_log == "all" else dofs_log, "dofsall": int(dofs_log == "all"), "raised": 0, "after": [], "arg": "None" if dofs_arg is None else "given"}
+            e = {"tid": f"route:{si}:{qi}", "op": "route", "models": ms, "params": params, "dofs": [] if dofs_log == "all" else dofs_log, "dofsall": int(dofs_log == "all"), "raised": 0, "after": [], "arg": "None" if dofs_arg is None else "given", "x": [], "resafter": []}
             try:
                 arg = None if dofs_arg is None else ("all" if dofs_arg == "all" else [tuple(d) for d in dofs_arg])
                 cm.update_model_parameters(np.array(params, dtype=float), arg)
                 e["after"] = [readback(m) for m in cm.models]
+                # ... and the combined model then EVALUATES with the routed parameters (clip bounds in order only)
+                if all(not (a_[0] == "clip" and a_[2] != NONE and a_[1] > a_[2]) for a_ in e["after"]):
+                    xs = signal(rng, rng.choice(forms))
+                    e["x"] = ints(xs)
+                    e["resafter"] = ints(cm(xs))
             except Exception as ex:  # noqa
                 e["raised"] = 1
                 e["error"] = repr(ex)[:160]
